@@ -92,6 +92,7 @@ func c04Eval(c c04Case) (ok bool, sig, detail string) {
 			}
 			what := fmt.Sprintf("step %d: rotate(%s, %d) on L=%d = %s", step, loc, n, L, printLoc(f.Loc))
 			obs, dok := refmodel.Den(f.Loc)
+			engine.Outcome(printLoc(f.Loc))
 			if !dok {
 				return false, "malformed-location", what + " (" + locdom.Encode(f.Loc) + ") is not a well-formed location"
 			}
